@@ -118,6 +118,35 @@ func C17(run *mon.Run) {
 				{"left-neg", ref.EncodeG1(ref.E1.Neg(P1)), ref.EncodeG1(P2)},
 				{"both-neg", ref.EncodeG1(ref.E1.Neg(P1)), ref.EncodeG1(ref.E1.Neg(P2))},
 			}
+			// proofs outside G1 whose small-order components cancel each other (any joint test of the two
+			// proofs, e.g. of their sum or difference, is blind to them), and the small-order points alone
+			T11 := tor11()
+			negT := ref.E1.Neg(T)
+			cases = append(cases,
+				spockCase{"plus-T3-minus-T3", ref.EncodeG1(ref.E1.Add(P1, T)), ref.EncodeG1(ref.E1.Add(P2, negT))},
+				spockCase{"minus-T3-plus-T3", ref.EncodeG1(ref.E1.Add(P1, negT)), ref.EncodeG1(ref.E1.Add(P2, T))},
+				spockCase{"T3-and-minus-T3", ref.EncodeG1(T), ref.EncodeG1(negT)},
+				spockCase{"T3-and-T3", ref.EncodeG1(T), ref.EncodeG1(T)},
+				spockCase{"plus-T11-minus-T11", ref.EncodeG1(ref.E1.Add(P1, T11)), ref.EncodeG1(ref.E1.Sub(P2, T11))},
+				spockCase{"plus-T11-plus-T11", ref.EncodeG1(ref.E1.Add(P1, T11)), ref.EncodeG1(ref.E1.Add(P2, T11))},
+				spockCase{"T11-and-minus-T11", ref.EncodeG1(T11), ref.EncodeG1(ref.E1.Neg(T11))},
+				spockCase{"left-T3-right-identity", ref.EncodeG1(T), inf},
+			)
+			// both proofs "identity", one or both of them in a non-canonical encoding (infinity flag with a
+			// non-zero byte at each position, extra flag bits)
+			for pos := 1; pos < 48; pos++ {
+				g := make([]byte, 48)
+				g[0] = 0xC0
+				g[pos] = byte(1 + r.IntN(255))
+				if pos == 47 || pos%8 == pi%8 {
+					cases = append(cases, spockCase{"noncanonical-identity-and-identity", g, inf}, spockCase{"identity-and-noncanonical-identity", inf, g}, spockCase{"both-noncanonical-identity", g, g})
+				}
+			}
+			for _, hdr := range []byte{0xE0, 0x40, 0xC1, 0xD0, 0x80, 0xA0, 0x00} {
+				g := make([]byte, 48)
+				g[0] = hdr
+				cases = append(cases, spockCase{"header-only-and-identity", g, inf}, spockCase{"identity-and-header-only", inf, g})
+			}
 			// malformed / lengths / bit flips on one side
 			base1, base2 := ref.EncodeG1(P1), ref.EncodeG1(P2)
 			for _, l := range []int{0, 1, 47, 49, 96, 100} {
